@@ -88,7 +88,7 @@ impl ConcCase {
             "scenario": scenario,
             "muxers": self.scripts.len(),
             "threads": self.threads,
-            "sink_types": self.scripts.iter().map(|s| format!("{:?}", s.cfg.sink)).collect::<Vec<_>>(),
+            "sink_types": self.scripts.iter().map(|s| if s.faults.pattern.is_empty() { format!("{:?}", s.cfg.sink) } else { format!("{:?}+short/interrupted writes {:?}", s.cfg.sink, s.faults.pattern) }).collect::<Vec<_>>(),
             "ops_per_muxer": self.scripts.iter().map(|s| s.ops.len()).collect::<Vec<_>>(),
             "clock0": self.clock0,
             "schedule_head": self.decisions.iter().take(24).collect::<Vec<_>>(),
@@ -121,6 +121,11 @@ pub fn gen(rng: &mut Rng) -> ConcCase {
             }
         }
         c.faults = FaultPlan::default();
+        if c.cfg.sink == SinkKind::Sim && rng.chance(1, 3) {
+            // a sink of another temperament: shortens and interrupts writes (never fails)
+            let n = rng.range(2, 9) as usize;
+            c.faults.pattern = (0..n).map(|_| *rng.pick(&[0u8, 1, 2, 3, 4])).collect();
+        }
         ctime_now.push(rng.chance(1, 5));
         scripts.push(c);
     }
@@ -183,8 +188,9 @@ fn yield_hook() -> Arc<dyn Fn() + Send + Sync> {
     })
 }
 
-fn build_any(cfg: &ProgCfg, now: bool) -> (Option<Box<dyn AnyMux>>, Res) {
-    let mut cfg = cfg.clone();
+fn build_any(script: &ProgCase, now: bool) -> (Option<Box<dyn AnyMux>>, Res) {
+    let mut cfg = script.cfg.clone();
+    let plan = FaultPlan { pattern: script.faults.pattern.clone(), ..Default::default() };
     if now {
         // the builder call `Metadata::with_current_time()` is the one sanctioned clock read
         let t = muxide::api::Metadata::new().with_current_time().creation_time;
@@ -200,7 +206,7 @@ fn build_any(cfg: &ProgCfg, now: bool) -> (Option<Box<dyn AnyMux>>, Res) {
     }
     match cfg.sink {
         SinkKind::Sim => {
-            let (mut s, log) = SimSink::new(FaultPlan::default());
+            let (mut s, log) = SimSink::new(plan);
             s.yield_hook = Some(yield_hook());
             mk!(s, Out::Log(log))
         }
@@ -333,7 +339,7 @@ pub fn run_conc(case: &ConcCase) -> ConcOut {
     let mut builds = Vec::new();
     let mut slots: Vec<Option<Box<dyn AnyMux>>> = Vec::new();
     for (i, s) in case.scripts.iter().enumerate() {
-        let (mx, res) = build_any(&s.cfg, case.ctime_now.get(i).copied().unwrap_or(false));
+        let (mx, res) = build_any(s, case.ctime_now.get(i).copied().unwrap_or(false));
         builds.push(res);
         slots.push(mx);
     }
@@ -484,6 +490,7 @@ pub fn run_conc(case: &ConcCase) -> ConcOut {
 fn reference(script: &ProgCase, now: bool, clock0: i64) -> (Res, Vec<OpRec>, Vec<u8>) {
     let mut c = script.clone();
     c.cfg.sink = SinkKind::Sim;
+    c.faults = FaultPlan::default();
     if now {
         let m = c.cfg.meta.get_or_insert_with(MetaCfg::default);
         m.ctime = Some(clock0.max(0) as u64);
